@@ -11,7 +11,7 @@ HOSTS = ["a.com", "www.a.com", "WWW.A.COM", "m.a.com", "amp.a.com", "amp-a.com",
          "b.a.co.uk", "FR.B.A.CO.UK", "xn--tlrama-bvab.fr", "télérama.fr", "amp-xn--tlrama-bvab.fr", "a.notatld", "localhost", "1.2.3.4",
          "facebook.com", "www.facebook.co.uk", "fr.wikipedia.org", "be-fr.shop.example.org", "co.uk", "com", "mobile.a.com", "www2.a.com",
          "a.com.", "xx.a.com", "www.fr.a.com"]
-HWRAP = ["", "lead-space", "trail-nl", "ctrl", "upper"]
+HWRAP = ["", "lead-space", "trail-nl", "ctrl", "upper", "ctrl-space", "space-ctrl"]
 OPTS = [("strip_suffix", [False, True]), ("normalize_amp", [True, False]), ("infer_redirection", [True, False]),
         ("suffix_aware", [False, True])]
 URL_GRIDS = {}
@@ -118,6 +118,10 @@ def wrap_host(h, w):
         return h[:1] + "\x00" + h[1:] + "\x7f"
     if w == "upper":
         return h.upper()
+    if w == "ctrl-space":
+        return "\x00 " + h
+    if w == "space-ctrl":
+        return h + " \x7f"
     return h
 
 
